@@ -56,9 +56,9 @@ def classify(t, in_wrapper, body_path, fnargs_of):
         if last and last[-1][2] == "children" and last[-1][3] == "quick_xml::se::element::Struct":
             return "children-buffer"
         # `?` on a Result: look at what was tried
-        inner = t0[1]
-        if inner[0] == "call" and name_is(inner[2], "branch"):
-            return classify(inner[3][0], in_wrapper, body_path, fnargs_of)
+        inner = tried(t0)
+        if inner is not None and inner[0] == "call":
+            return classify(inner, in_wrapper, body_path, fnargs_of)
     if t0[0] == "call" and name_is(t0[2], "escape_item", "escape_list"):
         return "escaped"
     if t0[0] == "call" and name_is(t0[2], "to_string"):
